@@ -14,7 +14,7 @@ patch, props = os.path.abspath(args[0]), args[1:]
 base = tempfile.mkdtemp(prefix="vm-", dir="/tmp")
 repo, verif = os.path.join(base, "repo"), os.path.join(base, "verif")
 try:
-    subprocess.run(["git", "-C", "/repo", "worktree", "add", "-q", "--detach", repo, "HEAD"], check=True)
+    subprocess.run(["git", "-C", "/repo", "worktree", "add", "-q", "--detach", repo, os.environ.get("VERIF_BASE", "HEAD")], check=True)
     r = subprocess.run(["git", "-C", repo, "apply", "--whitespace=nowarn", patch], capture_output=True, text=True)
     if r.returncode != 0:
         print("patch does not apply:", r.stderr)
